@@ -26,6 +26,17 @@ XS = [dict(d=0, r=0, fuse=1), dict(d=0, r=0, fuse=0), dict(d=1, r=0, fuse=1), di
 DEMAND_STAGES = {"Inc", "Dbl", "Even", "Odd", "Dup", "Rep", "Err2", "Err3", "Err4", "BSum2", "BSum3", "Buf1", "Buf2"}
 
 
+def lane(fn, box):
+    def run():
+        try:
+            box["res"] = fn()
+        except BaseException as e:  # re-raised in the main thread
+            box["exc"] = e
+    t = threading.Thread(target=run)
+    t.start()
+    return t
+
+
 def gen_cases(ctx, cfg, name):
     r = ctx.tlc(SPEC, cfg, module="Gen_Sem", deadlock_check=False, timeout=900, workers=1, name=name)
     seen, cases = set(), []
@@ -58,20 +69,45 @@ def run_sem(ctx, exe, cases, name, workers=12):
     return rfile, stats
 
 
-def judge(ctx, rfile, name, timeout=1800):
-    """TLC evaluates Sem's Verdict on every recorded execution; returns {line: verdict} for the non-ok lines."""
-    rows = vlib.read_ndjson(rfile)
+def judge_one(ctx, rfile, nrows, name, timeout):
     mon = ctx.tlc(SPEC, "Trace_Sem.cfg", dfs=True, files={"results.ndjson": rfile}, timeout=timeout, heap="8g", name=name)
-    if mon.depth != len(rows) + 1:
-        raise vlib.Infra("monitor did not consume all results (%d of %d)" % (mon.depth - 1, len(rows)))
-    bad = {}
+    if mon.depth != nrows + 1:
+        raise vlib.Infra("monitor did not consume all results (%d of %d)" % (mon.depth - 1, nrows))
     tups = vlib.tuples(mon.out, "VERDICT")        # robust against TLC wrapping long tuples
     if len(tups) != mon.out.count('"VERDICT"'):
         raise vlib.Infra("monitor output: %d VERDICT tuples parsed, %d printed" % (len(tups), mon.out.count('"VERDICT"')))
+    bad = {}
     for t in tups:
         if len(t) != 3 or not isinstance(t[0], int) or not isinstance(t[2], str):
             raise vlib.Infra("unparsable VERDICT tuple %r" % (t,))
         bad[t[0]] = t[2]
+    return bad
+
+
+def judge(ctx, rfile, name, timeout=1800, chunk=6000):
+    """TLC evaluates Sem's Verdict on every recorded execution; returns (rows, {line: verdict}) for the non-ok lines.
+    Large result files are judged in chunks, two TLC runs at a time."""
+    rows = vlib.read_ndjson(rfile)
+    if len(rows) <= chunk:
+        return rows, judge_one(ctx, rfile, len(rows), name, timeout)
+    parts = []
+    for k in range(0, len(rows), chunk):
+        f = ctx.tmp("%s-part%d.ndjson" % (name, k // chunk))
+        vlib.write_ndjson(f, rows[k:k + chunk])
+        parts.append((k, f, len(rows[k:k + chunk])))
+    bad, boxes = {}, []
+    for i in range(0, len(parts), 2):
+        pair = []
+        for (k, f, n) in parts[i:i + 2]:
+            box = {}
+            pair.append((k, box, lane(lambda f=f, n=n, k=k: judge_one(ctx, f, n, "%s-%d" % (name, k // chunk), timeout), box)))
+            time.sleep(0.3)
+        for (k, box, t) in pair:
+            t.join()
+            if "exc" in box:
+                raise box["exc"]
+            for line, v in box["res"].items():
+                bad[k + line] = v
     return rows, bad
 
 
@@ -136,17 +172,6 @@ def spin_witness(ctx, exe, pid):
     st = json.loads(p.stdout.strip().splitlines()[-1])
     ctx.log("spin witness: %s" % st)
     return rfile, st
-
-
-def lane(fn, box):
-    def run():
-        try:
-            box["res"] = fn()
-        except BaseException as e:  # re-raised in the main thread
-            box["exc"] = e
-    t = threading.Thread(target=run)
-    t.start()
-    return t
 
 
 def design_sem(ctx):
